@@ -1,5 +1,6 @@
 import CppUModel.Base.Proto
 import CppUModel.Model.ThreadSafe
+import CppUModel.Spec.ThreadSafe
 /-!
 Driver for C10.
 
@@ -13,7 +14,7 @@ Driver for C10.
   allocator call made under the lock, outstanding = union of what each thread still holds,
   everything can be released afterwards, and a misuse is reported as a failure, the run continues
   and the lock is free.
-Imports Base/Model only.
+Imports Base/Model/Spec/Gen only.
 -/
 open ThreadSafe
 
@@ -38,11 +39,43 @@ def releaseKind? : String → Option Kind
 
 /-! ## model replay -/
 
+/-- which externally visible entry point a script form goes through -/
+def entryOf : String → String
+  | "new" => "operator new(size_t)"
+  | "newnt" => "operator new(size_t,nothrow)"
+  | "newdbg" => "operator new(size_t,cstr,size_t)"
+  | "newdbgi" => "operator new(size_t,cstr,int)"
+  | "newarr" => "operator new[](size_t)"
+  | "newarrnt" => "operator new[](size_t,nothrow)"
+  | "newarrdbg" => "operator new[](size_t,cstr,int)"
+  | "newarrdbgz" => "operator new[](size_t,cstr,size_t)"
+  | "delete" => "operator delete(ptr)"
+  | "deletesz" => "operator delete(ptr,size_t)"
+  | "deletent" => "operator delete(ptr,nothrow)"
+  | "deletedbg" => "operator delete(ptr,cstr,size_t)"
+  | "deletedbgi" => "operator delete(ptr,cstr,int)"
+  | "delarr" => "operator delete[](ptr)"
+  | "delarrsz" => "operator delete[](ptr,size_t)"
+  | "delarrnt" => "operator delete[](ptr,nothrow)"
+  | "delarrdbg" => "operator delete[](ptr,cstr,size_t)"
+  | "delarrdbgi" => "operator delete[](ptr,cstr,int)"
+  | "malloc" | "calloc" | "mallocd" => "cpputest_malloc_location_with_leak_detection(size_t,cstr,size_t)"
+  | "realloc" => "cpputest_realloc_location_with_leak_detection(ptr,size_t,cstr,size_t)"
+  | "free" => "cpputest_free_location_with_leak_detection(ptr,cstr,size_t)"
+  | _ => "?"
+
+/-- the harness' own start-up: explicit switch, the cycle inside the first `getGlobalDetector()`
+    call, and the cycle around the construction of the harness' detector -/
+def startPtrs (fresh : Bool) : Ptrs :=
+  let p := if fresh then Ptrs.initial.threadSafeOn else Ptrs.initial.defaultOn
+  p.save.restore.save.restore
+
 structure DState where
-  on       : Bool := false
+  ptrs     : Ptrs := startPtrs false                            -- the pointer table and its saved copies
+  depth    : Nat := 0                                           -- open save scopes
   sys      : Option Sys := some { lock := .free, det := [] }    -- none: a wrapper blocked (hang)
   nthreads : Nat := 0
-  pending  : List Event := []                                   -- reverse file order
+  pending  : List (Event × String) := []                        -- reverse file order, with the script form
   owners   : List (Nat × Nat × Kind) := []                      -- label, holding thread, family
   transit  : List (Nat × Nat × Kind) := []                      -- label, receiving thread, family
   reports  : Nat := 0
@@ -51,13 +84,32 @@ structure DState where
 def ownerOf (d : DState) (l : Nat) : Option (Nat × Kind) :=
   (d.owners.find? (·.1 == l)).map (·.2)
 
-/-- run one detector operation in the current mode; counts misuse reports -/
-def applyOp (on : Bool) (acc : Option Sys × Nat) (op : DetOp) : Option Sys × Nat :=
+/-- does the function this script form reaches right now take the scoped lock at all? (regenerated tables;
+    that it takes it FIRST is a proof obligation, and observed by the harness' `unlocked` counter) -/
+def lockedOf (d : DState) (form : String) : Bool := locksAnywhereFn (d.ptrs.target (entryOf form))
+
+/-- the form the harness' main thread uses for an operation it performs itself -/
+def formOf : DetOp → String
+  | .alloc _ .new => "new"
+  | .alloc _ .newArray => "newarr"
+  | .alloc _ .malloc => "malloc"
+  | .free _ .new _ => "delete"
+  | .free _ .newArray _ => "delarr"
+  | .free _ .malloc _ => "free"
+  | .realloc _ _ _ => "realloc"
+
+def withLock (d : DState) (ops : List DetOp) : List (DetOp × Bool) := ops.map fun op => (op, lockedOf d (formOf op))
+
+/-- run one detector operation through the function installed for it: a whole locked wrapper, or
+    the plain call; counts misuse reports -/
+def applyOp (acc : Option Sys × Nat) (item : DetOp × Bool) : Option Sys × Nat :=
   match acc.1 with
   | none => acc
   | some s =>
-    if on then (wrapper op s, if isMisuse op s.det then acc.2 + 1 else acc.2)
-    else (some (plainCall op s), if isMisuse op s.det then acc.2 + 1 else acc.2)
+    if item.2 then (wrapper item.1 s, if isMisuse item.1 s.det then acc.2 + 1 else acc.2)
+    else (some (plainCall item.1 s), if isMisuse item.1 s.det then acc.2 + 1 else acc.2)
+
+def overloadedLine (p : Ptrs) : String := s!"overloaded {if p.overloaded then 1 else 0}"
 
 def scriptLine (d : DState) (tid : Nat) (ws : List String) : Option (DState × TOp) :=
   match ws with
@@ -115,33 +167,39 @@ def misuseOps (kind : String) (id : Nat) : Option (List DetOp) :=
 
 def modelStep (d : DState) (op : List String) (_obs : List (List String)) : DState × List String :=
   match op with
-  | ["on"] => ({ d with on := true }, [])
-  | ["off"] => ({ d with on := false }, [])
+  | ["fresh"] => ({ d with ptrs := startPtrs true }, [overloadedLine (startPtrs true)])
+  | ["on"] => ({ d with ptrs := d.ptrs.threadSafeOn }, [overloadedLine d.ptrs.threadSafeOn])
+  | ["off"] => ({ d with ptrs := d.ptrs.defaultOn }, [overloadedLine d.ptrs.defaultOn])
+  | ["save"] => ({ d with ptrs := d.ptrs.save, depth := d.depth + 1 }, [overloadedLine d.ptrs.save])
+  | ["restore"] => ({ d with ptrs := d.ptrs.restore, depth := d.depth - 1 }, [overloadedLine d.ptrs.restore])
   | ["threads", n, _] => ({ d with nthreads := n.toNat?.getD 0, pending := [] }, [])
   | "t" :: tid :: rest =>
     match tid.toNat? with
     | none => (d, ["bad-op"])
     | some t =>
       match scriptLine d t rest with
-      | some (d', top) => ({ d' with pending := (t, top) :: d'.pending }, [])
+      | some (d', top) => ({ d' with pending := ((t, top), rest.headD "") :: d'.pending }, [])
       | none => (d, ["bad-op"])
   | ["run"] =>
     let sched := d.pending.reverse
-    let dops := detOps sched
-    let r := dops.foldl (applyOp d.on) (d.sys, 0)
+    let dops : List (DetOp × Bool) := sched.filterMap fun (e, form) =>
+      match e.2 with
+      | .det op => some (op, lockedOf d form)
+      | _ => none
+    let r := dops.foldl applyOp (d.sys, 0)
     let d' := { d with sys := r.1, pending := [], reports := r.2 }
     let helds := (List.range d.nthreads).map fun t =>
       s!"held {t} {(d.owners.filter (fun o => o.2.1 == t)).length}"
-    let locks := if d.on then dops.length else 0
+    let locks := (dops.filter (·.2)).length
     match r.1 with
     | none => (d', ["hang"])
     | some _ =>
       (d', [s!"ops {sched.length}"] ++ helds ++
         [s!"outstanding {outstandingOf d'}", s!"reports {r.2}", s!"locks {locks}",
-         s!"unlocks {locks - (if d.on then r.2 else 0)}", "unlocked 0", "overlap 0", "pattern 0"])
+         s!"unlocks {locks - (if locks > 0 then r.2 else 0)}", "unlocked 0", "overlap 0", "pattern 0"])
   | ["cleanup"] =>
-    let dops := (d.owners ++ d.transit).map fun o => DetOp.free o.1 o.2.2 false
-    let r := dops.foldl (applyOp d.on) (d.sys, 0)
+    let dops := withLock d ((d.owners ++ d.transit).map fun o => DetOp.free o.1 o.2.2 false)
+    let r := dops.foldl applyOp (d.sys, 0)
     let d' := { d with sys := r.1, owners := [], transit := [], pending := [] }
     match r.1 with
     | none => (d', ["hang"])
@@ -149,7 +207,7 @@ def modelStep (d : DState) (op : List String) (_obs : List (List String)) : DSta
   | ["misuse", kind] =>
     match misuseOps kind d.scratch, d.sys with
     | some ops, some s0 =>
-      let r := ops.foldl (applyOp d.on) (some s0, 0)
+      let r := (withLock d ops).foldl applyOp (some s0, 0)
       match r.1 with
       | none => ({ d with sys := none }, ["hang"])
       | some s1 =>
@@ -158,7 +216,7 @@ def modelStep (d : DState) (op : List String) (_obs : List (List String)) : DSta
         -- the next allocation (new + delete, malloc + free in a helper thread)
         let nxt := [DetOp.alloc (d.scratch + 2) .new, .free (d.scratch + 2) .new false,
                     .alloc (d.scratch + 3) .malloc, .free (d.scratch + 3) .malloc false]
-        let r2 := nxt.foldl (applyOp d.on) (some s1, 0)
+        let r2 := (withLock d nxt).foldl applyOp (some s1, 0)
         match r2.1 with
         | none => ({ d with sys := none, scratch := d.scratch + 10 }, head ++ ["next hang"])
         | some s2 =>
@@ -178,6 +236,7 @@ structure Shadow where
   detOps  : Nat := 0                      -- allocation / release operations of the current phase
   allOps  : Nat := 0
   races   : Nat := 0                      -- ThreadSanitizer reports seen so far (any location)
+  depth   : Nat := 0                      -- open saveAndDisable scopes
 
 def obsNat (obs : List (List String)) (key : String) : Option Nat :=
   obs.findSome? fun l => match l with
@@ -216,8 +275,16 @@ def isCounterRace (l : List String) : Bool :=
 
 def specStepCore (sh : Shadow) (o : Proto.Op) : Except String Shadow := do
   match o.op with
-  | ["on"] => return { sh with on := true }
-  | ["off"] => return { sh with on := false }
+  | ["on"] | ["fresh"] | ["off"] =>
+    if obsNat o.obs "overloaded" != some 1 then throw "the overloads are not reported as switched on after the switch"
+    return { sh with on := o.op != ["off"] }
+  | ["save"] =>
+    if obsNat o.obs "overloaded" != some 0 then throw "the overloads are still on inside a saveAndDisable scope"
+    return { sh with depth := sh.depth + 1 }
+  | ["restore"] =>
+    if sh.depth == 1 && obsNat o.obs "overloaded" != some 1 then
+      throw "the overloads are not switched on again after the balancing restoreNewDeleteOverloads"
+    return { sh with depth := sh.depth - 1 }
   | ["threads", n, _] => return { sh with n := n.toNat?.getD 0, detOps := 0, allOps := 0 }
   | ["t", tid, k, lab, _] =>
     let some t := tid.toNat? | throw "bad thread id"
@@ -248,7 +315,11 @@ def specStepCore (sh : Shadow) (o : Proto.Op) : Except String Shadow := do
     let some outstanding := obsInt o.obs "outstanding" | throw "no `outstanding` observation"
     if reports != 0 then throw s!"{reports} misuse report(s) while the threads ran (a block was released that was not outstanding in the detector, or not as the family it was allocated with)"
     if overlap != 0 then throw s!"two threads were inside the detector lock at the same time ({overlap} times)"
-    if unlocked != 0 then throw s!"{unlocked} underlying allocator call(s) made by a thread that did not hold the detector lock"
+    if unlocked != 0 then
+      let forms := o.obs.filterMap fun l => match l with
+        | ["unlocked-at", form, n] => some s!"{form}×{n}"
+        | _ => none
+      throw s!"{unlocked} underlying allocator call(s) made by a thread that did not hold the detector lock (entry forms: {" ".intercalate forms})"
     if sh.on && locks != sh.detOps then throw s!"{sh.detOps} operations took the detector lock {locks} times"
     if locks != unlocks then throw s!"lock acquired {locks} times but released {unlocks} times"
     if pattern != 0 then throw s!"{pattern} block(s) changed under their owner (overlapping or lost blocks)"
